@@ -1230,6 +1230,86 @@ fn gen_app_format(rng: &mut Rng, persist: bool) -> FmtSpec {
     FmtSpec::Csv { cols: idxs[..n].iter().map(|&i| (pool[i].0.to_string(), pool[i].1.clone())).collect(), sorted: rng.chance(1, 2) }
 }
 
+// ---------------------------------------------------------------------------------------------------
+// case kind P: the model's reader against serde_json::from_str
+
+/// protocol text of a value with every number's bits zeroed (the reader keeps lexemes only)
+fn enc0(v: &Value, out: &mut String) {
+    match v {
+        Value::Number(n) => out.push_str(&format!("n {} 0", hex(&n.to_string()))),
+        Value::Array(xs) => {
+            out.push_str(&format!("a {}", xs.len()));
+            for x in xs {
+                out.push(' ');
+                enc0(x, out);
+            }
+        }
+        Value::Object(m) => {
+            out.push_str(&format!("o {}", m.len()));
+            for (k, x) in m {
+                out.push(' ');
+                out.push_str(&hex(k));
+                out.push(' ');
+                enc0(x, out);
+            }
+        }
+        other => out.push_str(&enc(other)),
+    }
+}
+
+fn case_p(ctx: &mut Ctx, idx: usize, rng: &mut Rng) {
+    let mut v = if rng.chance(1, 6) { gen_value(rng, 3) } else { gen_response(rng, false) };
+    // serde_json's default float parser may be off in the last place; the reader keeps lexemes, so use a
+    // value whose text is a fixed point of parse-then-print
+    let mut line = serde_json::to_string(&v).unwrap_or_default();
+    for _ in 0..3 {
+        match serde_json::from_str::<Value>(&line) {
+            Ok(back) => {
+                let again = serde_json::to_string(&back).unwrap_or_default();
+                if again == line {
+                    break;
+                }
+                ctx.count("P/serde-float-reparse-inexact");
+                v = back;
+                line = again;
+            }
+            Err(_) => break,
+        }
+    }
+    let _ = v;
+    match rng.below(6) {
+        0 if line.len() > 2 && line.starts_with('{') => {
+            // a truncated record
+            let mut cut = 1 + rng.below(line.len() - 1);
+            while !line.is_char_boundary(cut) {
+                cut -= 1;
+            }
+            line.truncate(cut.max(1));
+            ctx.count("P/truncated");
+        }
+        1 => {
+            // two records run together / trailing garbage
+            line.push_str(if rng.chance(1, 2) { "{}" } else { "x" });
+            ctx.count("P/trailing");
+        }
+        _ => ctx.count("P/whole"),
+    }
+    let out = match serde_json::from_str::<Value>(&line) {
+        Ok(back) if serde_json::to_string(&back).ok().as_deref() == Some(line.as_str()) => {
+            let mut s = String::from("ok ");
+            enc0(&back, &mut s);
+            s
+        }
+        Ok(_) => {
+            ctx.count("P/not-a-fixed-point");
+            line = "null".into();
+            "ok z".to_string()
+        }
+        Err(_) => "fail".to_string(),
+    };
+    ctx.emit(idx, format!("P {}", hex(&line)), out);
+}
+
 fn strip_error_paths(m: &mut MapSpec) {
     match m {
         MapSpec::Path(p) => {
@@ -1344,6 +1424,12 @@ pub fn run(ctx: &mut Ctx) -> &'static str {
             _ => gen_response(&mut rng, false),
         };
         case_f(ctx, idx, &fmt, &resp);
+    }
+    // ---- generated: the reader of the model against serde_json::from_str
+    for _ in 0..ctx.n(500, 5000) {
+        let (idx, true) = begin!() else { continue };
+        let mut rng = Rng::for_case(ctx.seed, PROP, idx as u64);
+        case_p(ctx, idx, &mut rng);
     }
     // ---- generated: Combined sinks
     for _ in 0..ctx.n(400, 4000) {
